@@ -19,8 +19,8 @@ REQS = ["alpha", "beta>=1.0", "gamma[socks]<3,>=2", "delta==1.*", "epsilon; pyth
         "eta>=1; sys_platform == 'win32'", "Theta.Lib~=2.1"]
 EXTRAS = ["test", "docs", "x", "Security"]
 
-VERSION_FROM = ["literal", "file", "module", "package", "exec", "regex", "computed", "about-dict"]
-REQS_FROM = ["literal", "file", "string", "tuple", "helper"]
+VERSION_FROM = ["literal", "file", "module", "package", "exec", "regex", "computed", "about-dict", "nested-relative"]
+REQS_FROM = ["literal", "file", "string", "tuple", "helper", "nested-relative"]
 HERE = ["abspath-dirname", "dirname", "relative", "chdir", "realpath"]
 SETUP_IMPORT = ["from-setuptools", "setuptools-mod", "distutils"]
 STYLES = ["kwargs", "kwargs", "kwargs", "cfg", "mixed", "pyproject"]
@@ -142,6 +142,10 @@ def _setup_py(spec):
             L.append("ns = {}\nwith open(os.path.join(here, %r, '_version.py')) as f:\n    exec(f.read(), ns)\nversion = ns['__version__']" % p)
         elif vf == "regex":
             L.append("with open(os.path.join(here, %r, '__init__.py')) as f:\n    version = re.search(r\"__version__ = '([^']+)'\", f.read()).group(1)" % p)
+        elif vf == "nested-relative":
+            # a helper module two packages deep that itself uses a relative import (a same-named module one level up
+            # says something else)
+            L.append("from %s.plugins.info import VERSION as version" % p)
         elif vf == "computed":
             L.append("version = ''.join(%r)" % list(spec["version"]))
         else:
@@ -154,6 +158,8 @@ def _setup_py(spec):
                 L.append("requires = %r" % spec["requires"])
             elif rf == "file":
                 L.append("with open(os.path.join(here, 'requirements.txt')) as f:\n    requires = [l.strip() for l in f if l.strip() and not l.startswith('#')]")
+            elif rf == "nested-relative":
+                L.append("from %s.plugins.info import REQUIRES as requires" % p)
             elif rf == "string":
                 L.append("requires = %r" % "\n".join(spec["requires"]))
             elif rf == "tuple":
@@ -225,6 +231,10 @@ def files_of(spec):
         "%s/__init__.py" % p: "__version__ = '%s'\n" % spec["version"],
         "%s/_version.py" % p: "__version__ = %r\n" % spec["version"],
         "%s/__about__.py" % p: "__title__ = %r\n__version__ = %r\n" % (spec["name"], spec["version"]),
+        "%s/plugins/__init__.py" % p: "",
+        "%s/plugins/info.py" % p: "from .deps import VERSION, REQUIRES\n",
+        "%s/plugins/deps.py" % p: "VERSION = %r\nREQUIRES = %r\n" % (spec["version"], spec["requires"]),
+        "%s/deps.py" % p: "VERSION = '0.0.1'\nREQUIRES = ['decoy-dependency<1']\n",
         "sub/keep.txt": "x\n",
         "src/inner_mod.py": "X = 1\n",
     }
